@@ -67,6 +67,7 @@ def run(ctx):
     vh = VH(vh_bin(), locklog=os.path.join(ctx.scratch_root, "lock_vh.log"))
     snaps_seen = set()
     try:
+        pinned(ctx, vh)
         for i in range(n_ws):
             root = ctx.scratch(f"ws{i}")
             strict = i % 2 == 1
@@ -166,3 +167,23 @@ def processes(ctx, ws, sens0, multi0):
             ctx.violation({"kind": "cli-output-differs-between-runs", "names": sorted(diffnames)[:5]},
                           {"run0": outs[0][1][-600:], "runN": o[1][-600:]}, files=ws.files)
     ctx.count("process_workspaces")
+
+
+def pinned(ctx, vh):
+    """the two registration orders of the pinned witness give different answers for the name 'shared'"""
+    from ..witness import WITNESS, ws_from_witness
+    w = WITNESS[KF_FIRST]
+    ws = ws_from_witness(ctx, w)
+    files = sorted(ws.workspace_py())
+    snaps = []
+    sens = multi = set()
+    for order in (w["order"], w["other_order"]):
+        db = vh.new_db()
+        vh.call(op="batch", cmds=[{"op": "analyze_fresh", "db": db, "path": ws.abs(r), "text": ws.files[r]} for r in order])
+        snaps.append(keyed_queries(vh.call(op="queries", db=db, files=[ws.abs(r) for r in files])))
+        if not sens:
+            sens, multi = sensitive_names(ws, vh.call(op="raw", db=db))
+        vh.call(op="drop_db", db=db)
+    ctx.judged()
+    judge(ctx, ws, snaps[0], snaps[1], sens, multi, ("pinned-witness", w["other_order"]), ws.root)
+    shutil.rmtree(ws.root, ignore_errors=True)
